@@ -153,3 +153,16 @@ def bytesOfHex (s : String) : Option Bytes :=
 def hexOrDash (bs : Bytes) : String := if bs.isEmpty then "-" else hexOfBytes bs
 
 end Mqtt
+
+namespace Mqtt
+
+/-- `?` on a `Result` inside a reader: continue with the value or fail with the error. -/
+@[inline] def liftExcept {ε α} : Except ε α → Parser ε α
+  | .ok a => fun bs => .ok a bs
+  | .error e => fun _ => .err e
+
+/-- `x.checked_sub(y).ok_or(e)?`. -/
+@[inline] def checkedSub {ε} (x y : Nat) (e : ε) : Parser ε Nat :=
+  if y ≤ x then Parser.pure (x - y) else Parser.fail e
+
+end Mqtt
